@@ -393,6 +393,7 @@ class Frame(object):
         raise_(KeyError, 'symbolic key')
 
     def store_subscript(self, o, k, v):
+        I.check_shared_write(o, 'item store')
         if isinstance(o, SObj):
             d, _ = I.class_lookup(o.cls, '__setitem__')
             return I.call(d, [o, k, v], {})
